@@ -61,13 +61,27 @@ def item_doc(item):
 def witness_item(k):
     w = k["witness"]
     if "doc" in w:
-        return {"key": "W:" + k["id"], "doc": w["doc"]}
-    return {"key": "W:" + k["id"], "doc": U.case_doc(w["case"])}
+        return {"key": "W:" + k["id"], "doc": w["doc"], "case": w.get("case")}
+    return {"key": "W:" + k["id"], "doc": U.case_doc(w["case"]), "case": w["case"]}
+
+
+def item_index(item, key):
+    """Universe index that decides index-chosen configurations: of the case itself, or (witness /
+    replay items) of the universe case the document was taken from."""
+    src = key
+    if isinstance(item, dict) and item.get("case"):
+        src = str(item["case"])
+    try:
+        if src[0] == "Z":
+            return int(src.split(":")[1])
+    except (IndexError, ValueError):
+        pass
+    return mix(src) & 0xFFFF
 
 
 def replay_item(rp):
     d = rp["detail"]
-    return {"key": str(rp["case"]), "doc": d["doc"]}
+    return {"key": str(rp["case"]), "doc": d["doc"], "case": str(rp["case"])}
 
 
 def hash_ab():
